@@ -2,7 +2,7 @@
   Dirk.Props.KernelsEq — the decision kernels, as translated mechanically from /repo's current Go source
   by /verif/factx (Dirk/Gen/Kernels.lean, regenerated on every run), are extensionally EQUAL to the hand-written
   model functions of Dirk/Model/Rules.lean (§1–3), Dirk/Model/Checker.lean (§4–5), Dirk/Model/Dkg.lean (§6–7, §9–11),
-  Dirk/Model/Scatter.lean (§8) and Dirk/Model/Crashes.lean (§12), for all inputs.
+  Dirk/Model/Scatter.lean (§8), Dirk/Model/Crashes.lean (§12) and Dirk/Model/Import.lean (§13), for all inputs.
 
   A semantic edit of a Go kernel changes the regenerated definition and one of these theorems stops building;
   a Go construct outside the translator's fragment replaces the definition by `kernelUntranslatable_…`, and this
@@ -13,6 +13,7 @@ import Dirk.Model.Checker
 import Dirk.Model.Dkg
 import Dirk.Model.Scatter
 import Dirk.Model.Crashes
+import Dirk.Model.Import
 import Dirk.Gen.Kernels
 
 namespace Dirk
@@ -506,5 +507,214 @@ theorem suitableAllocGen_bounded (npeers n k : Nat) (h : Gen.suitableAllocGen n 
 
 example : Gen.suitableAllocGen 3 3 = some 3 ∧ Gen.suitableAllocGen 4 3 = none ∧
     Gen.suitableAllocGen 4294967295 3 = none ∧ Gen.suitableRefusesGen 4 3 = true := by decide
+
+/-! ## 13. the import command's raise-only merge (`storeSlashingProtection`, the body of the loop over the file's entries)
+     ↔ `foldAtts`, `foldBlocks` and the `start` selection of `mergeEntries` (Model/Import.lean)
+
+  The translated code works on plain integers: a record is the triple (slot, source, target), and the numbers read
+  from the file come in already parsed (`parseInt64 s` = the model of `strconv.ParseInt(s, 10, 64)`; it is never
+  unfolded here). -/
+
+/-- a record as the triple (slot, source, target) the translated code uses -/
+def Protection.triple (p : Protection) : Int × Int × Int := (p.slot, p.src, p.tgt)
+
+def Protection.ofTriple (t : Int × Int × Int) : Protection := ⟨t.1, t.2.1, t.2.2⟩
+
+theorem Protection.ofTriple_triple (p : Protection) : Protection.ofTriple p.triple = p := rfl
+
+/-- the two attestation fields of `p` replaced by the pair the translated step returns -/
+def Protection.withAtt (p : Protection) (q : Int × Int) : Protection := { p with src := q.1, tgt := q.2 }
+
+def Protection.withSlot (p : Protection) (v : Int) : Protection := { p with slot := v }
+
+/-- one signed attestation of the file folded into `p` by the translated loop body -/
+def importAttStepP (p : Protection) (st : String × String) : Option Protection :=
+  (Gen.importAttStepGen p.src p.tgt (parseInt64 st.1) (parseInt64 st.2)).map p.withAtt
+
+/-- one signed block of the file folded into `p` by the translated loop body -/
+def importBlockStepP (p : Protection) (s : String) : Option Protection :=
+  (Gen.importBlockStepGen p.slot (parseInt64 s)).map p.withSlot
+
+theorem foldAtts_nil (p : Protection) : foldAtts p [] = some p := by rw [foldAtts]
+
+theorem foldBlocks_nil (p : Protection) : foldBlocks p [] = some p := by rw [foldBlocks]
+
+/-- the model's `foldAtts`, one element at a time, is the translated step followed by the fold of the rest.  (The Go
+    raises the source before it looks at the target, the model checks both numbers first: the results agree because a
+    rejected number discards the record whole.) -/
+theorem foldAtts_cons_eq_gen (p : Protection) (s t : String) (rest : List (String × String)) :
+    foldAtts p ((s, t) :: rest) = (importAttStepP p (s, t)).bind (fun p' => foldAtts p' rest) := by
+  rw [foldAtts]
+  unfold importAttStepP Gen.importAttStepGen Protection.withAtt
+  dsimp only
+  generalize parseInt64 s = a
+  generalize parseInt64 t = b
+  cases a with
+  | none => rfl
+  | some sv =>
+    dsimp only
+    by_cases hs : sv < 0
+    · simp only [hs, if_true]; rfl
+    · simp only [hs, if_false]
+      cases b with
+      | none => rfl
+      | some tv =>
+        dsimp only
+        by_cases ht : tv < 0
+        · simp only [ht, if_true]; rfl
+        · simp only [ht, if_false]; rfl
+
+/-- **`importAttStep_eq_gen`**: one signed attestation, for every record and every pair of strings -/
+theorem importAttStep_eq_gen (p : Protection) (s t : String) :
+    foldAtts p [(s, t)] =
+      (Gen.importAttStepGen p.src p.tgt (parseInt64 s) (parseInt64 t)).map
+        (fun q => { p with src := q.1, tgt := q.2 }) := by
+  rw [foldAtts_cons_eq_gen]
+  unfold importAttStepP Protection.withAtt
+  cases Gen.importAttStepGen p.src p.tgt (parseInt64 s) (parseInt64 t) with
+  | none => rfl
+  | some q => simp only [Option.map_some, Option.bind_some, foldAtts_nil]
+
+/-- … and the whole list: `foldAtts` is the left fold of the translated step -/
+theorem foldAtts_eq_gen (p : Protection) (l : List (String × String)) :
+    foldAtts p l = l.foldlM importAttStepP p := by
+  induction l generalizing p with
+  | nil => rw [foldAtts_nil]; rfl
+  | cons st rest ih =>
+    obtain ⟨s, t⟩ := st
+    rw [foldAtts_cons_eq_gen, List.foldlM_cons]
+    cases importAttStepP p (s, t) with
+    | none => rfl
+    | some p' => simp only [Option.bind_some, ih]; rfl
+
+theorem foldBlocks_cons_eq_gen (p : Protection) (s : String) (rest : List String) :
+    foldBlocks p (s :: rest) = (importBlockStepP p s).bind (fun p' => foldBlocks p' rest) := by
+  rw [foldBlocks]
+  unfold importBlockStepP Gen.importBlockStepGen Protection.withSlot
+  generalize parseInt64 s = a
+  cases a with
+  | none => rfl
+  | some v =>
+    dsimp only
+    by_cases hv : v < 0
+    · simp only [hv, if_true]; rfl
+    · simp only [hv, if_false]; rfl
+
+/-- **`importBlockStep_eq_gen`**: one signed block, for every record and every string -/
+theorem importBlockStep_eq_gen (p : Protection) (s : String) :
+    foldBlocks p [s] = (Gen.importBlockStepGen p.slot (parseInt64 s)).map (fun v => { p with slot := v }) := by
+  rw [foldBlocks_cons_eq_gen]
+  unfold importBlockStepP Protection.withSlot
+  cases Gen.importBlockStepGen p.slot (parseInt64 s) with
+  | none => rfl
+  | some v => simp only [Option.map_some, Option.bind_some, foldBlocks_nil]
+
+theorem foldBlocks_eq_gen (p : Protection) (l : List String) :
+    foldBlocks p l = l.foldlM importBlockStepP p := by
+  induction l generalizing p with
+  | nil => rw [foldBlocks_nil]; rfl
+  | cons s rest ih =>
+    rw [foldBlocks_cons_eq_gen, List.foldlM_cons]
+    cases importBlockStepP p s with
+    | none => rfl
+    | some p' => simp only [Option.bind_some, ih]; rfl
+
+/-- the record `mergeEntries` starts from for key `k`: an earlier entry of the file, else the existing store, else −1/−1/−1
+    (this is, verbatim, the `start` of `mergeEntries`; see `mergeEntries_step_eq_gen`) -/
+def importStart (fromFile fromStore : Option Protection) : Protection :=
+  match fromFile with
+  | some p => p
+  | none => match fromStore with
+    | some p => p
+    | none => {}
+
+/-- **`importStart_eq_gen`**: the start record is what the translated `if !exists { … }` computes from the two optional
+    records, for all of them -/
+theorem importStart_eq_gen (fromFile fromStore : Option Protection) :
+    importStart fromFile fromStore =
+      Protection.ofTriple (Gen.importStartGen (fromFile.map Protection.triple) (fromStore.map Protection.triple)) := by
+  unfold importStart Gen.importStartGen
+  cases fromFile with
+  | some p => rfl
+  | none =>
+    cases fromStore with
+    | some p => rfl
+    | none => rfl
+
+/-- … in the form the task names it: for the map built so far, the store and the key -/
+theorem importStart_eq_gen' (db : Db) (m : PMap) (k : Bytes) :
+    (match m.get k with
+      | some p => p
+      | none => match existingOf db k with
+        | some p => p
+        | none => ({} : Protection)) =
+      Protection.ofTriple
+        (Gen.importStartGen ((m.get k).map Protection.triple) ((existingOf db k).map Protection.triple)) :=
+  importStart_eq_gen (m.get k) (existingOf db k)
+
+/-- one entry of the file merged into the map being built, written with the translated functions only (the decoding of
+    the public key, `hexDecode0x` / `fit48`, is not part of the translated kernels) -/
+def mergeStepGen (db : Db) (m : PMap) (e : FileEntry) : Option PMap :=
+  match hexDecode0x e.pubkey with
+  | none => none
+  | some kb =>
+    ((e.atts.foldlM importAttStepP
+        (Protection.ofTriple (Gen.importStartGen ((m.get (fit48 kb)).map Protection.triple)
+          ((existingOf db (fit48 kb)).map Protection.triple)))).bind
+      (fun p1 => e.blocks.foldlM importBlockStepP p1)).map (fun p2 => m.set (fit48 kb) p2)
+
+/-- **`mergeEntries_step_eq_gen`**: one step of `mergeEntries` is entirely the generated start, attestation step and
+    block step -/
+theorem mergeEntries_step_eq_gen (db : Db) (m : PMap) (e : FileEntry) (rest : List FileEntry) :
+    mergeEntries db m (e :: rest) = (mergeStepGen db m e).bind (fun m' => mergeEntries db m' rest) := by
+  rw [mergeEntries]
+  unfold mergeStepGen
+  cases hexDecode0x e.pubkey with
+  | none => rfl
+  | some kb =>
+    dsimp only
+    rw [← importStart_eq_gen, ← foldAtts_eq_gen]
+    change (match foldAtts (importStart (m.get (fit48 kb)) (existingOf db (fit48 kb))) e.atts with
+      | none => none
+      | some p1 => match foldBlocks p1 e.blocks with
+        | none => none
+        | some p2 => mergeEntries db (m.set (fit48 kb) p2) rest) = _
+    cases foldAtts (importStart (m.get (fit48 kb)) (existingOf db (fit48 kb))) e.atts with
+    | none => rfl
+    | some p1 =>
+      simp only [Option.bind_some, ← foldBlocks_eq_gen]
+      cases foldBlocks p1 e.blocks with
+      | none => rfl
+      | some p2 => rfl
+
+/-- … and the whole loop over the file's entries -/
+theorem mergeEntries_eq_gen (db : Db) (m : PMap) (l : List FileEntry) :
+    mergeEntries db m l = l.foldlM (mergeStepGen db) m := by
+  induction l generalizing m with
+  | nil => rw [mergeEntries]; rfl
+  | cons e rest ih =>
+    rw [mergeEntries_step_eq_gen, List.foldlM_cons]
+    cases mergeStepGen db m e with
+    | none => rfl
+    | some m' => simp only [Option.bind_some, ih]; rfl
+
+/-- raise-only, rejection of negative and unparsable numbers, source handled before target: read off the translated code -/
+example : Gen.importAttStepGen 5 9 (some 7) (some 8) = some (7, 9) ∧
+    Gen.importAttStepGen 5 9 (some 3) (some 12) = some (5, 12) ∧
+    Gen.importAttStepGen 5 9 (some 5) (some 9) = some (5, 9) ∧
+    Gen.importAttStepGen (-1) (-1) (some 0) (some 0) = some (0, 0) ∧
+    Gen.importAttStepGen 5 9 (some (-1)) (some 12) = none ∧
+    Gen.importAttStepGen 5 9 (some 7) (some (-2)) = none ∧
+    Gen.importAttStepGen 5 9 none (some 12) = none ∧
+    Gen.importAttStepGen 5 9 (some 7) none = none ∧
+    Gen.importBlockStepGen 10 (some 20) = some 20 ∧ Gen.importBlockStepGen 10 (some 4) = some 10 ∧
+    Gen.importBlockStepGen (-1) (some 0) = some 0 ∧ Gen.importBlockStepGen 10 (some (-1)) = none ∧
+    Gen.importBlockStepGen 10 none = none := by decide
+
+/-- the start record: an earlier entry of the file wins over the store; with neither, −1/−1/−1 -/
+example : Gen.importStartGen (some (1, 2, 3)) (some (4, 5, 6)) = (1, 2, 3) ∧
+    Gen.importStartGen none (some (4, 5, 6)) = (4, 5, 6) ∧
+    Gen.importStartGen none none = (-1, -1, -1) ∧
+    importStart none none = {} ∧ importStart none (some ⟨10, 2, 3⟩) = ⟨10, 2, 3⟩ := by decide
 
 end Dirk
